@@ -397,6 +397,24 @@ func blockOrder(fn *ssa.Function) ([]*ssa.BasicBlock, map[edge]bool) {
 	return post, back
 }
 
+// loopExitsOnlyAtHeader: structural check for `loop k complete`
+func loopExitsOnlyAtHeader(li *loopInfo) (bool, *ssa.BasicBlock) {
+	for b := range li.blocks {
+		if b == li.header {
+			continue
+		}
+		for _, s := range b.Succs {
+			if !li.blocks[s] {
+				return false, b
+			}
+		}
+		if len(b.Succs) == 0 {
+			return false, b // return or panic inside the body
+		}
+	}
+	return true, nil
+}
+
 func (x *Exec) findLoops(fr *frame, order []*ssa.BasicBlock, back map[edge]bool) {
 	heads := map[*ssa.BasicBlock]bool{}
 	for e := range back {
@@ -432,6 +450,17 @@ func (x *Exec) findLoops(fr *frame, order []*ssa.BasicBlock, back map[edge]bool)
 		}
 		if fr.top && x.loopSpecs != nil && x.loopSpecs[li.ord] != nil {
 			li.spec = x.loopSpecs[li.ord]
+		}
+		if fr.top && li.spec != nil && li.spec.Complete {
+			ok, where := loopExitsOnlyAtHeader(li)
+			goal, pos := "true", x.eng.pos(h.Instrs[0].Pos())
+			if !ok {
+				goal = "false"
+				if len(where.Instrs) > 0 {
+					pos = x.eng.pos(where.Instrs[len(where.Instrs)-1].Pos())
+				}
+			}
+			x.vc.oblige(fmt.Sprintf("%s#inv-init:loop%d.complete(no exit from the body)", x.eng.fnKey(fr.fn), li.ord), "inv-init", "true", goal, pos)
 		}
 		fr.loops[h] = li
 	}
